@@ -343,6 +343,9 @@ class ApertureStats:
                 raise ValueError(f'{name} must be a {ndim}D array.')
             if shape and array.shape != self._data.shape:
                 raise ValueError(f'data and {name} must have the same shape.')
+            if name == 'error' and array.dtype.kind in 'iu':
+                # the errors are squared; integer dtypes would overflow
+                array = array.astype(float)
         return array
 
     @property
